@@ -18,6 +18,15 @@ LN_TINY = math.log(2.2250738585072014e-308)     # smallest normal double
 LN_DENORM = math.log(5e-324)
 
 
+def tip_state(pat, i):
+    """site patterns as functions of the leaf index: 0 conserved, 1 nearly conserved, 2 pseudo-random"""
+    if pat == 0:
+        return 0
+    if pat == 1:
+        return 1 if i % 16 == 0 else 0
+    return (i * i + i // 3) % 4
+
+
 def make_tree(shape, n, rng):
     if shape == "caterpillar":
         t = 0
@@ -27,7 +36,7 @@ def make_tree(shape, n, rng):
     return trees.random_tree(rng, n, shape)
 
 
-def build(shape, n, tree, subst, x, B=None):
+def build(shape, n, tree, subst, x, B=None, mixed=False):
     torch = impl.load()
     from torchtree.evolution.tree_likelihood import TreeLikelihoodModel
     names = [f"s{i}" for i in range(n)]
@@ -41,7 +50,8 @@ def build(shape, n, tree, subst, x, B=None):
         sm = {"id": "m", "type": "HKY", "kappa": impl.param_json("kappa", [subst["kappa"]]),
               "frequencies": impl.param_json("freqs", subst["freqs"])}
     aln = {"id": "aln", "type": "Alignment", "datatype": "nucleotide", "taxa": "taxa",
-           "sequences": [{"taxon": names[i], "sequence": "A" + ("C" if i % 16 == 0 else "A")} for i in range(n)]}
+           "sequences": [{"taxon": names[i], "sequence": "A" + ("C" if i % 16 == 0 else "A") +
+                          ("ACGT"[tip_state(2, i)] if mixed else "")} for i in range(n)]}
     d = {"id": "like", "type": "TreeLikelihoodModel", "tree_model": tm,
          "site_model": {"id": "sm", "type": "ConstantSiteModel"}, "substitution_model": sm,
          "site_pattern": {"id": "sp", "type": "SitePattern", "alignment": aln}}
@@ -54,17 +64,17 @@ def branch_vector(n, x):
     return [x * (1.0 if j % 2 == 0 else 1.75) for j in range(2 * n - 3)]
 
 
-def ref_loglik(tree, n, x, subst_obj):
+def ref_loglik(tree, n, x, subst_obj, pats=(0, 1)):
     """Float reference in the log domain (per-node rescaling): used to place the sweep and in search."""
     torch = impl.load()
     Ms = [subst_obj.p_t(torch.tensor([x * f])).detach().reshape(4, 4).tolist() for f in (1.0, 1.75)]
     freqs = [float(v) for v in subst_obj.frequencies.detach().reshape(-1)]
     it = trees.index_tree(tree)
     total = []
-    for pat in (0, 1):
+    for pat in pats:
         def rec(u):
             if isinstance(u, int):
-                s = 0 if pat == 0 else (1 if u % 16 == 0 else 0)
+                s = tip_state(pat, u)
                 return [1.0 if k == s else 0.0 for k in range(4)], 0.0
             pl, sl = rec(u[1])
             pr, sr = rec(u[2])
@@ -84,7 +94,7 @@ def ref_loglik(tree, n, x, subst_obj):
     return total
 
 
-def coq_case(shape, n, tree, Ms, freqs):
+def coq_case(shape, n, tree, Ms, freqs, mixed=False):
     I = lambda v: f"ofQ NumI {C.qlit(v)}"
     M = lambda m: C.coq_list(m, lambda row: C.coq_list(row, I))
     ident = "[[ofQ NumI 1; ofQ NumI 0; ofQ NumI 0; ofQ NumI 0]; [ofQ NumI 0; ofQ NumI 1; ofQ NumI 0; ofQ NumI 0]; " \
@@ -94,7 +104,9 @@ def coq_case(shape, n, tree, Ms, freqs):
     return (f"let P := fun j : nat => if Nat.eqb j {C.natlit(2 * n - 3)} then {ident} else "
             f"lk [{M(Ms[0])}; {M(Ms[1])}] (Nat.modulo j 2) [] in "
             f"let pats := [(ofQ NumI 1, fun i : nat => {e(0)}); "
-            f"(ofQ NumI 1, fun i : nat => if Nat.eqb (Nat.modulo i 16) 0 then {e(1)} else {e(0)})] in "
+            f"(ofQ NumI 1, fun i : nat => if Nat.eqb (Nat.modulo i 16) 0 then {e(1)} else {e(0)})"
+            + (f"; (ofQ NumI 1, fun i : nat => lk [{e(0)}; {e(1)}; {e(2)}; {e(3)}] "
+               f"(Nat.modulo (i * i + Nat.div i 3) 4) [])" if mixed else "") + "] in "
             f"show_i (loglik NumI 4%nat {C.coq_list(freqs, I)} [P] [ofQ NumI 1] (index_tree {tr}) pats)")
 
 
@@ -164,18 +176,53 @@ def run(tier, seed, replay=None):
             for x, v in zip(rows, vb):
                 evals.append(dict(shape=shape, subst=subst, tree=tree, x=x, mode="batched", value=v,
                                   flag_before=False, flag_after=bool(lkb.rescale)))
+            # (3b) the same batched model again after an assignment (flag already raised), the rows in
+            #      different regimes than before and far apart from each other
+            rows2 = [xs[-1], xs[0], xs[2 + per_band // 3]]
+            fbb = bool(lkb.rescale)
+            dcb["bl"].tensor = torch.tensor([branch_vector(n, x) for x in rows2])
+            vb2 = [float(v) for v in lkb().detach()]
+            for x, v in zip(rows2, vb2):
+                evals.append(dict(shape=shape, subst=subst, tree=tree, x=x, mode="batched-history", value=v,
+                                  flag_before=fbb, flag_after=bool(lkb.rescale)))
+            # (4) columns of very different conservation in one alignment (a conserved, a nearly conserved and
+            #     a pseudo-random column): fresh, in a history, and batched
+            xm = [xs[0] * 0.2, xs[0], xs[2 + per_band // 2]]
+            for x in xm:
+                lk, dc = build(shape, n, tree, subst, x, mixed=True)
+                try:
+                    v = float(lk().detach())
+                except Exception as ex:  # noqa
+                    v = f"raises {type(ex).__name__}: {str(ex)[:100]}"
+                evals.append(dict(shape=shape, subst=subst, tree=tree, x=x, mode="fresh", value=v, mixed=True,
+                                  flag_before=False, flag_after=bool(lk.rescale)))
+            lkm, dcm = build(shape, n, tree, subst, xm[0], mixed=True)
+            fb = False
+            for x in xm + xm[::-1]:
+                dcm["bl"].tensor = torch.tensor(branch_vector(n, x))
+                try:
+                    v = float(lkm().detach())
+                except Exception as ex:  # noqa
+                    v = f"raises {type(ex).__name__}: {str(ex)[:100]}"
+                evals.append(dict(shape=shape, subst=subst, tree=tree, x=x, mode="history", value=v, mixed=True,
+                                  flag_before=fb, flag_after=bool(lkm.rescale)))
+                fb = bool(lkm.rescale)
             for e in evals:
                 if "ref" not in e and e["shape"] == shape and e["subst"] == subst:
-                    e["ref"] = sum(ref_loglik(tree, n, e["x"], sm))
+                    e["ref"] = sum(ref_loglik(tree, n, e["x"], sm, (0, 1, 2) if e.get("mixed") else (0, 1)))
                     e["Ms"] = [sm.p_t(torch.tensor([e["x"] * fct])).detach().reshape(4, 4).tolist() for fct in (1.0, 1.75)]
                     e["freqs"] = [float(v) for v in sm.frequencies.detach().reshape(-1)]
     rep.timings["impl_sweep"] = round(time.time() - t0, 2)
 
     def regime(e):
+        if e.get("mixed"):
+            return "mixed-conservation"
         per_site = e["ref"] / 2
         return "normal" if per_site > LN_TINY + 1 else ("subnormal-band" if per_site > LN_DENORM - 1 else "beyond")
 
     def check_float(e, ref):
+        if isinstance(e["value"], str):
+            return e["value"]
         if not math.isfinite(e["value"]):
             return f"returned {e['value']!r} while the true value {ref!r} is finite"
         if abs(e["value"] - ref) > 1e-8 * abs(ref):
@@ -205,15 +252,15 @@ def run(tier, seed, replay=None):
     t0 = time.time()
     uniq = {}
     for e in evals:
-        uniq.setdefault((e["shape"], e["subst"]["type"], e["x"]), e)
+        uniq.setdefault((e["shape"], e["subst"]["type"], e["x"], bool(e.get("mixed"))), e)
     keys = list(uniq)
-    exprs = [coq_case(uniq[k]["shape"], n, uniq[k]["tree"], uniq[k]["Ms"], uniq[k]["freqs"]) for k in keys]
+    exprs = [coq_case(uniq[k]["shape"], n, uniq[k]["tree"], uniq[k]["Ms"], uniq[k]["freqs"], k[3]) for k in keys]
     res = C.run_cases(PID, HEADER, exprs, shard=max(1, len(exprs) // 48 + 1), timeout=1500)
     model = {k: C.ival_to_fracs(v) for k, v in zip(keys, res)}
     rep.timings["model_eval"] = round(time.time() - t0, 2)
     dist = {}
     for e in evals:
-        iv = model[(e["shape"], e["subst"]["type"], e["x"])]
+        iv = model[(e["shape"], e["subst"]["type"], e["x"], bool(e.get("mixed")))]
         dist[f"{regime(e)}/{e['mode']}"] = dist.get(f"{regime(e)}/{e['mode']}", 0) + 1
         rep.case(dict(s=e["shape"], m=e["subst"]["type"], x=e["x"], mode=e["mode"], fb=e["flag_before"]),
                  nontrivial=regime(e) != "normal" or e["flag_before"],
@@ -237,7 +284,9 @@ def run(tier, seed, replay=None):
     rep.rule = (f"trees with {n} taxa (caterpillar, balanced, random), JC69/HKY, two site patterns, all branch lengths "
                 "scaled by x; x swept from where site likelihoods are normal, through every part of the subnormal band "
                 "[5e-324, 2.2e-308] (placed by bisection), to where the plain result is -inf; each x evaluated on a fresh "
-                "model, inside one up-and-down history on a single model (flag observed), and in a batch mixing regimes; "
+                "model, inside one up-and-down history on a single model (flag observed), in a batch mixing regimes and in "
+                "the same batch again after an assignment; plus an alignment mixing a conserved, a nearly conserved and "
+                "a pseudo-random column (fresh and in a history); "
                 "non-trivial = in/beyond the band or evaluated after the switch")
     rep.extra = dict(input_distribution=dist, traces_validated_against_impl=len(evals), taxa=n)
     return rep.finish()
